@@ -481,7 +481,7 @@ pub fn property() -> Property {
                     emit!(Case::Exit { variant, code: a });
                 }
             }
-            for s in ["FCGI_MAX_CONNS", "FCGI_MAX_REQS", "FCGI_MPXS_CONNS", "", "FCGI_MAX_CONN", "FCGI_MAX_CONNSS", "FCGI_MAX_REQ", "FCGI_MPXS_CONN", "FCGI_", "X", "FCGI_MAX_CONNS\0", " FCGI_MAX_REQS", "FCGI_MAX_REQS ", "FCGI-MAX-REQS", "FCGI_MAX_CONNS|FCGI_MAX_REQS", "fcgi_max_conns_x", "\u{e4}"] {
+            for s in ["FCGI_MAX_CONNS", "FCGI_MAX_REQS", "FCGI_MPXS_CONNS", "", "FCGI_MAX_CONN", "FCGI_MAX_CONNSS", "FCGI_MAX_REQ", "FCGI_MPXS_CONN", "FCGI_", "X", "FCGI_MAX_CONNS\0", " FCGI_MAX_REQS", "FCGI_MAX_REQS ", "FCGI-MAX-REQS", "FCGI_MAX_CONNS|FCGI_MAX_REQS", "fcgi_max_conns_x", "\u{e4}", "0x7", "0x1", "0x0", "7", "1", "0b1", "FCGI_MAX_CONNS | FCGI_MPXS_CONNS", "\tFCGI_MPXS_CONNS", "FCGI_MAX_CONNS\n", "FCGI_MAX_CONNS,FCGI_MAX_REQS", "fcgi_max_conns", "Fcgi_Max_Reqs", "|", " "] {
                 emit!(Case::Name(s.to_string()));
             }
         }),
